@@ -58,14 +58,33 @@ pub fn run(out: &mut Out, seed: u64, tier: &str) {
                         }
                     }
                 }
-                3 | 4 | 5 => { ops.push("G".into()); w.generate_connectivity(); outs.push(state(&w)); }
+                3 | 4 | 5 => {
+                    ops.push("G".into()); w.generate_connectivity(); outs.push(state(&w));
+                    // oracle: whatever came before, the result must be what a freshly constructed molecule with these atoms and coordinates has
+                    let cur = Mol { name: m.name.clone(), zs: m.zs.clone(), xs: w.molecule().coordinates.iter().map(|p| [p.x, p.y, p.z]).collect() };
+                    if let Some(fresh) = catch(|| cur.build()) {
+                        let (a, b) = (canon_conn(&connectivity(w.molecule())), canon_conn(&connectivity(&fresh)));
+                        if a != b {
+                            out.oracle_fail(&format!("after call history [{}] generate_connectivty left {} but a molecule constructed from the same atoms and coordinates has {}", ops.iter().map(|o| o.split(' ').next().unwrap_or("")).collect::<Vec<_>>().join(","), a, b), &format!("{}\ncalls: {}", cur.xyz_text(), ops.join(" ; ")));
+                        }
+                    }
+                }
                 6 | 7 => {
                     let mut mat = bond_matrix(&m, &mut rng);
+                    if rng.chance(0.2) { for v in mat.iter_mut() { *v = 0.0; } }   // the empty specification: every bond must go
                     if rng.chance(0.1) { mat.pop(); }
                     if rng.chance(0.1) && !mat.is_empty() { let n = m.n(); if n > 1 { mat[1] = 0.7; } }
                     ops.push(format!("M {}", hexs(&mat)));
                     match panic_kind(|| w.set_bond_orders(mat.clone())) {
-                        None => outs.push(state(&w)),
+                        None => {
+                            outs.push(state(&w));
+                            // oracle: exactly the specified bonds and everything derived from them, nothing stale
+                            let n = m.n();
+                            let mut want: Vec<(usize, usize, f64)> = vec![];
+                            for i in 0..n { for j in (i + 1)..n { if mat[i * n + j].abs() >= 1e-8 { want.push((i, j, mat[i * n + j])); } } }
+                            let (a, b) = (canon_conn(&connectivity(w.molecule())), canon_conn(&reference_conn(n, &want)));
+                            if a != b { out.oracle_fail(&format!("after call history [{}] set_bond_orders left {} but the matrix specifies {}", ops.iter().map(|o| o.split(' ').next().unwrap_or("")).collect::<Vec<_>>().join(","), a, b), &format!("{}\ncalls: {}", m.xyz_text(), ops.join(" ; "))); }
+                        }
                         Some(kind) => { n_err += 1; outs.push(format!("err {}", kind)); }
                     }
                 }
